@@ -209,7 +209,7 @@ fn fault_step(w: &mut World, ctx: &mut Ctx, st: &Step) -> StepResult {
             let k = sym_key(key);
             // now and then the document is first turned into a node whose subject is itself a node: the whole is
             // compressed, an assertion is added to the compressed element, and the subject is uncompressed again
-            let (orig, om) = if st.arg(3) % 3 == 2 && om.is_node() && !om.has_obscured() && w.docs[d].independent {
+            let (orig, om) = if st.arg(3) % 3 == 2 && om.is_node() && w.docs[d].independent {
                 match guarded(|| orig.compress().and_then(|c| c.add_assertion("kept with", 1).uncompress_subject())) {
                     Ok(Ok(e)) => {
                         ctx.probe("node-whose-subject-is-a-node");
